@@ -64,16 +64,44 @@ type VerifC03Block struct {
 	NSamp      int
 }
 
-// VerifC03Run starts an AbacoSource on scripted producers and runs one reader-loop tick per batch.
-// sample[i] is what producer i yields in the Sample phase, ticks[i][k] what it yields in tick k
-// (all producers must have the same number of ticks).  With viaStartRun the loop is launched by the
-// real StartRun (50 ms ticks), otherwise by the same two statements with the given tick period.
-func VerifC03Run(sample [][]*packets.Packet, ticks [][][]*packets.Packet, period time.Duration,
-	viaStartRun bool, firstFrame int64) ([]VerifC03Block, error) {
+// VerifC03Source is one AbacoSource object that can be run several times (stop, then start again),
+// as a source kept by SourceControl is.
+type VerifC03Source struct {
+	as *AbacoSource
+}
+
+// NewVerifC03Source makes the source with the real constructor.
+func NewVerifC03Source() (*VerifC03Source, error) {
 	as, err := NewAbacoSource()
 	if err != nil {
 		return nil, err
 	}
+	return &VerifC03Source{as: as}, nil
+}
+
+// Nchan is the channel count the source reports after its last Sample.
+func (vs *VerifC03Source) Nchan() int { return vs.as.nchan }
+
+// VerifC03Run starts a fresh AbacoSource on scripted producers and runs one reader-loop tick per batch.
+func VerifC03Run(sample [][]*packets.Packet, ticks [][][]*packets.Packet, period time.Duration,
+	viaStartRun bool, firstFrame int64) ([]VerifC03Block, error) {
+	vs, err := NewVerifC03Source()
+	if err != nil {
+		return nil, err
+	}
+	return vs.Run(sample, ticks, period, viaStartRun, firstFrame)
+}
+
+// Run does one acquisition on the source: installs scripted producers (as Configure installs the
+// devices), then the real Sample, PrepareChannels, reader loop (one tick per batch), block assembly,
+// and the real stop path (abort, buffers channel closed, getNextBlock closes the devices).
+// sample[i] is what producer i yields in the Sample phase, ticks[i][k] what it yields in tick k
+// (all producers must have the same number of ticks).  With viaStartRun the loop is launched by the
+// real StartRun (50 ms ticks), otherwise by the same two statements with the given tick period.
+func (vs *VerifC03Source) Run(sample [][]*packets.Packet, ticks [][][]*packets.Packet, period time.Duration,
+	viaStartRun bool, firstFrame int64) ([]VerifC03Block, error) {
+	as := vs.as
+	var err error
 	release := make(chan struct{})
 	var lead *verifC03Producer
 	as.producers = as.producers[:0]
@@ -136,12 +164,16 @@ func VerifC03Run(sample [][]*packets.Packet, ticks [][][]*packets.Packet, period
 		}
 		blocks = append(blocks, vb)
 	}
+	// getNextBlock panics when nothing arrives within 100 read periods; the loop is parked, so its
+	// period can be stretched here without touching what the loop does
+	as.readPeriod = 100 * time.Millisecond
 	close(as.abortSelf)
 	close(release)
+	// the real end of a run: the loop closes the buffers channel, getNextBlock closes the devices
 	deadline := time.After(10 * time.Second)
 	for {
 		select {
-		case _, ok := <-as.buffersChan:
+		case _, ok := <-as.getNextBlock():
 			if !ok {
 				return blocks, nil
 			}
